@@ -25,6 +25,6 @@ theorem view_faults_after_unmap (gen off len : Nat) (bytes : Bytes) (mem : Mem) 
   simp [observe, h, Outcome.isPanic]
 
 /-- … and changes when the file does -/
-example : observe (fun _ => some [9, 9, 9]) { prov := .view 0 1 2, bytes := [1, 2] } = .ok [9, 9] := by decide
+example : observe (fun _ => some [9, 9, 9]) { prov := .view 0 1 2, bytes := [1, 2] } = .ok [9, 9] := rfl
 
 end Syzgy.C11
